@@ -9,6 +9,9 @@
 #define EQ_M 3
 #endif
 #define EQ_NARG 2
+#ifndef EQ_TIME
+#define EQ_TIME 0             /* 0 = time grid, 1 = wide delays on a clock grid, 2 = any double (does not finish) */
+#endif
 #define EQ_IDLE (-1)            /* AsyncEngine::EVENT_IDLE */
 
 #ifdef CV_NATIVE
@@ -19,6 +22,7 @@ static int eq_failed = 0;
 #define RCH(c, msg) do { if (c) printf("reached: %s\n", msg); } while (0)
 #define DOMAIN(c) do { if (!(c)) { printf("replay: input outside the harness domain (%s): nothing to reproduce\n", #c); exit(0); } } while (0)
 #define TWN(on, c, msg) ((void)0)
+#define RCH3(c, msg) RCH(c, msg)
 #else
 #define ENS(c, msg) __CPROVER_assert((c), "ensures: " msg)
 /* assert, then continue only on the paths where it held: a violation already reported here is not reported again by every later
@@ -31,6 +35,11 @@ static int eq_failed = 0;
 #define RCH(c, msg) ((void)0)
 #endif
 #define DOMAIN(c) __CPROVER_assume(c)
+#if EQ_M >= 3
+#define RCH3(c, msg) RCH(c, msg)    /* situations that need three operations */
+#else
+#define RCH3(c, msg) ((void)0)
+#endif
 /* must-fail twins: the negated postcondition, compiled in by one -DTWIN_x at a time */
 #define TWN(on, c, msg) do { if (on) __CPROVER_assert((c), "ensures: TWIN (negated) " msg); } while (0)
 
@@ -72,6 +81,11 @@ double ceil(double);
 #define TW_LEAK 1
 #else
 #define TW_LEAK 0
+#endif
+#ifdef TWIN_ISH
+#define TW_ISH 1
+#else
+#define TW_ISH 0
 #endif
 #ifdef TWIN_CANCEL
 #define TW_CANCEL 1
@@ -169,7 +183,6 @@ static int eq_remaining_agrees(int r, int spec)
  * bound (acyclic), is strictly ordered by (when, scheduling order) and holds exactly the pending records with their own fields */
 static void eq_check_queue(void)
 {
-    eq_snapshot();
     ENS(eq_q_n >= 0, "the task list ends within the bound (no cycle, no entry appears twice)");
     ENS(eq_q_n == eq_npending(), "the task list holds as many entries as there are scheduled, not cancelled, not fired events");
     for (int k = 0; k < EQ_M; ++k) {
@@ -199,9 +212,9 @@ static void eq_check_queue(void)
 }
 
 /* one history of EQ_M operations; op_kind: 0 schedule, 1 cancel, 2 checkEvents */
-static void eq_run_history(const int *op_kind, const int *op_api, const int *op_f, const int *op_a, const unsigned long *op_when_bits,
+static void eq_run_history(const int *op_kind, const int *op_f, const int *op_a, const unsigned long *op_when_bits,
                            const int *op_weight, const int *op_cb, const unsigned long *op_now_bits, const int *op_v0,
-                           const int *op_v1, const int *op_qf, const int *op_qa, unsigned long base_bits)
+                           const int *op_v1, const int *op_qf, const int *op_qa, unsigned long base_bits, int nops)
 {
     const double base = eq_bits2double(base_bits);
     DOMAIN(base >= 0.0 && base <= 4.0e9);
@@ -209,12 +222,12 @@ static void eq_run_history(const int *op_kind, const int *op_api, const int *op_
     eq_snapshot();
     LEMMA(eq_q_n == 0 && eq_nfired == 0 && eq_call_allocs == 0, "init: the scheduler starts empty");
 
-    for (int t = 0; t < EQ_M; ++t) {
-        const int kind = op_kind[t], api = op_api[t], f = op_f[t], a = op_a[t], weight = op_weight[t], cb = op_cb[t];
+    for (int t = 0; t < EQ_M && t < nops; ++t) {
+        const int api = 1;     /* through eventAdd / eventDelete / eventFind, which forward to the member functions */
+        const int kind = op_kind[t], f = op_f[t], a = op_a[t], weight = op_weight[t], cb = op_cb[t];
         const double when = eq_bits2double(op_when_bits[t]);
         const double now = eq_bits2double(op_now_bits[t]);
         DOMAIN(kind >= 0 && kind <= 2);
-        DOMAIN(api == 0 || api == 1);
         DOMAIN(f == 0 || f == 1);
         DOMAIN(a >= -1 && a < EQ_NARG);
         DOMAIN(cb == 0 || cb == 1);
@@ -223,6 +236,15 @@ static void eq_run_history(const int *op_kind, const int *op_api, const int *op_
         /* the clock may step backwards, but stays within a window; delays up to 2e6 s: keeps 1000 * (due - now) inside int */
         DOMAIN(now >= base && now <= base + 1.0e5);
         DOMAIN(!(when > 2.0e6));
+#if EQ_TIME == 0
+        /* time grid: four clock values, eight delays (two of them "as soon as possible"); sums collide, so ties are frequent */
+        DOMAIN(now == 1000.0 || now == 1001.0 || now == 1002.0 || now == 1003.0);
+        DOMAIN(when == -1.0 || when == 0.0 || when == 0.0002 || when == 0.5 || when == 1.0 || when == 2.0 || when == 3.0 || when == 86400.0);
+#elif EQ_TIME == 1
+        /* four clock values; delays: every double <= 2e6 (any sign, NaN, -inf, subnormal) whose mantissa has at most 8 leading bits */
+        DOMAIN(now == 1000.0 || now == 1001.0 || now == 1002.0 || now == 1003.0);
+        DOMAIN((op_when_bits[t] & 0xFFFFFFFFFFFUL) == 0);
+#endif
         eq_valid[0] = op_v0[t];
         eq_valid[1] = op_v1[t];
 
@@ -259,6 +281,11 @@ static void eq_run_history(const int *op_kind, const int *op_api, const int *op_
                     }
             }
             const int traps0 = eq_traps;
+            RCH(nvict == 1 && a >= 0, "cancel with an argument matches an event");
+#ifndef EQ_ARG_ONLY
+            RCH3(nvict >= 2, "cancel without an argument matches two events");
+#endif
+            RCH(a >= 0 && nvict == 0, "cancel matches nothing");
             eq_op_cancel(api, f, a, now);
             eq_snapshot();
             for (int s = 0; s < EQ_M; ++s)
@@ -272,10 +299,7 @@ static void eq_run_history(const int *op_kind, const int *op_api, const int *op_
                 if (s < eq_nsched && S[s].pending)
                     ENS(eq_queued(s), "cancel() leaves every other event scheduled");
             ENS(eq_traps - traps0 == ((a >= 0 && nvict == 0) ? 1 : 0), "cancel() reports 'event not found' exactly when an argument was given and nothing matched");
-            RCH(nvict == 1 && a >= 0, "cancel with an argument removed an event");
-            RCH(nvict >= 2, "cancel without an argument matched two events");
-            RCH(a >= 0 && nvict == 0, "cancel found nothing");
-            RCH(nvict >= 1 && eq_npending() >= 1, "cancel removed an event and left another one");
+            RCH3(nvict >= 1 && eq_npending() >= 1, "cancel removed an event and left another one");
         } else {
             /* ---- checkEvents ---------------------------------------------------------------------------------------------- */
             const int nf0 = eq_nfired;
@@ -296,8 +320,8 @@ static void eq_run_history(const int *op_kind, const int *op_api, const int *op_
                             "an event fires with its own handler, argument and cbdata protection");
                         TWN(TW_DUE, S[s].ts > now, "fires before its due time");
                         TWN(TW_ORDER, s != eq_next(), "fires out of order");
-                        RCH(j > nf0 && S[s].ts == S[eq_fired_seq[j - 1 < 0 ? 0 : j - 1]].ts, "two events with equal due times fired in one batch");
-                        RCH(j > nf0 && S[s].ts > S[eq_fired_seq[j - 1 < 0 ? 0 : j - 1]].ts, "two events with different due times fired in one batch");
+                        RCH3(j > nf0 && S[s].ts == S[eq_fired_seq[j - 1 < 0 ? 0 : j - 1]].ts, "two events with equal due times fired in one batch");
+                        RCH3(j > nf0 && S[s].ts > S[eq_fired_seq[j - 1 < 0 ? 0 : j - 1]].ts, "two events with different due times fired in one batch");
                         last_heavy = eq_heavy(s);
                         S[s].pending = 0;
                         S[s].fired = 1;
@@ -307,9 +331,9 @@ static void eq_run_history(const int *op_kind, const int *op_api, const int *op_
             {
                 const int h = eq_next();
                 ENS(last_heavy || h < 0 || S[h].ts > now, "every due event fires, unless a heavy event ended the batch");
-                RCH(last_heavy && h >= 0 && S[h].ts <= now, "a heavy event ended the batch before another due event");
+                RCH3(last_heavy && h >= 0 && S[h].ts <= now, "a heavy event ended the batch before another due event");
                 RCH(eq_nfired == nf0 && h >= 0, "checkEvents with nothing due and an event pending");
-                RCH(eq_nfired - nf0 >= 2, "two events fired in one batch");
+                RCH3(eq_nfired - nf0 >= 2, "two events fired in one batch");
             }
             ENS(eq_remaining_agrees(r, eq_spec_remaining(now)), "checkEvents returns the time remaining until the next pending event (idle / 0 = call again / wait)");
             /* what the AsyncCallQueue does next: dial every call unless its cbdata-protected argument went stale */
@@ -336,6 +360,8 @@ static void eq_run_history(const int *op_kind, const int *op_api, const int *op_
             }
         }
 
+        if (kind != 1)
+            eq_snapshot();      /* the cancel branch has taken it already */
         eq_check_queue();
 
         /* queries at the same clock value: timeRemaining() and find() */
@@ -385,7 +411,7 @@ static void eq_run_history(const int *op_kind, const int *op_api, const int *op_
 #ifdef T_HISTORY
 void h_history(void)
 {
-    int op_kind[EQ_M], op_api[EQ_M], op_f[EQ_M], op_a[EQ_M], op_weight[EQ_M], op_cb[EQ_M], op_v0[EQ_M], op_v1[EQ_M], op_qf[EQ_M], op_qa[EQ_M];
+    int op_kind[EQ_M], op_f[EQ_M], op_a[EQ_M], op_weight[EQ_M], op_cb[EQ_M], op_v0[EQ_M], op_v1[EQ_M], op_qf[EQ_M], op_qa[EQ_M];
     unsigned long op_when_bits[EQ_M], op_now_bits[EQ_M];
     unsigned long base_bits;
 #ifdef EQ_ARG_ONLY
@@ -393,7 +419,73 @@ void h_history(void)
     for (int t = 0; t < EQ_M; ++t)
         __CPROVER_assume(op_kind[t] != 1 || op_a[t] >= 0);
 #endif
-    eq_run_history(op_kind, op_api, op_f, op_a, op_when_bits, op_weight, op_cb, op_now_bits, op_v0, op_v1, op_qf, op_qa, base_bits);
+    eq_run_history(op_kind, op_f, op_a, op_when_bits, op_weight, op_cb, op_now_bits, op_v0, op_v1, op_qf, op_qa, base_bits, EQ_M);
 }
 #endif
 #endif
+
+#ifndef CV_NATIVE
+#ifdef T_ADDISH
+/* eventAddIsh(): the event is queued with a delay of delta (delta < 3 s) or of any value within delta +- delta/3, never earlier;
+ * cbdata protection is on (eventAdd's default) */
+void h_add_ish(void)
+{
+    unsigned long delta_bits, now_bits;
+    int weight, a;
+    const double delta = eq_bits2double(delta_bits), now = eq_bits2double(now_bits);
+    DOMAIN(now >= 0.0 && now <= 4.0e9);
+    DOMAIN(!(delta > 2.0e6));
+#if EQ_TIME == 0
+    DOMAIN((delta_bits & 0xFFFFFFFFFFFUL) == 0);
+    DOMAIN(now == 1000.0 || now == 1001.5 || now == 1.7e9);
+#endif
+    DOMAIN(a >= -1 && a < EQ_NARG);
+    eq_op_schedule_ish(0, 1, a, delta, weight, now);
+    eq_snapshot();
+    ENS(eq_q_n == 1, "eventAddIsh queues exactly one event");
+    if (eq_q_n == 1) {
+        const double due = eq_q_when[0];
+        ENS(eq_q_seq[0] == 0 && eq_q_func[0] == 1 && eq_q_arg[0] == a && eq_q_weight[0] == weight && eq_q_cbdata[0] == 1,
+            "eventAddIsh queues the event with its handler, argument and weight, cbdata-protected");
+        if (!(delta > 0.0))
+            ENS(due == 0.0, "a delay <= 0 means as soon as possible");
+        else if (delta < 3.0)
+            ENS(due == now + delta, "delays under 3 s are not randomised");
+        else {
+            const double third = delta / 3.0;
+            ENS(due >= now + (delta - third) && due <= now + (delta + third), "the randomised delay stays within delta +- delta/3");
+            ENS(due >= now, "never due before the time of scheduling");
+            TWN(TW_ISH, due == now + delta, "the delay is not randomised");
+        }
+        RCH(delta >= 3.0, "randomised delay");
+        RCH(delta > 0.0 && delta < 3.0, "plain delay");
+        RCH(!(delta > 0.0), "as soon as possible");
+    }
+    eq_op_clean();
+    ENS(eq_locks[0] == 0 && eq_locks[1] == 0 && eq_frees == 1, "clean() releases the entry and its cbdata lock");
+}
+#endif
+
+#ifdef T_FAR
+/* timeRemaining() for an event far in the future: 1000 * (due - now) has to fit the int it is cast to */
+void h_far(void)
+{
+    unsigned long when_bits, now_bits;
+    const double when = eq_bits2double(when_bits), now = eq_bits2double(now_bits);
+    DOMAIN(now >= 0.0 && now <= 4.0e9);
+    DOMAIN(when > 0.0 && when <= 3.0e7);        /* up to about a year ahead */
+    eq_op_schedule(1, 0, 0, -1, when, 0, 0, now);
+    {
+        const int tr = eq_op_time_remaining(now);
+        if (now + when > now)
+            ENS(tr >= 1, "an event that is not due yet is waited for");
+        else
+            ENS(tr == 0, "a delay that vanishes in rounding makes the event due at once");
+        RCH(tr > 1000000, "more than 1000 s to wait");
+        RCH(tr == 1, "minimum delay");
+    }
+    eq_op_clean();
+}
+#endif
+#endif
+
